@@ -305,7 +305,9 @@ func (p *poller) readWriteLoop() {
 										_ = c.closeWithError(err)
 										break
 									}
-									if n < bufLen {
+									if n < bufLen && (c.typ == ConnTypeTCP || c.typ == ConnTypeUnix) {
+										// a short count means "drained" on a stream
+										// socket only: more datagrams may be pending.
 										break
 									}
 								}
